@@ -386,6 +386,8 @@ def cases(draw):
     settings = draw(settings_dicts(autodetect=not (langkw.get("languages") or langkw.get("locales"))))
     c = {"s": s, "sclass": sclass, "settings": settings, "langkw": langkw, "formats": draw(format_lists())}
     special = draw(st.integers(0, 19))
+    if special == 2:
+        special = 1
     if special == 0:
         # a clock time alone, around a DST transition of the TIMEZONE (ambiguous and skipped local times)
         base, zone = draw(dst_adjacent())
@@ -400,7 +402,9 @@ def cases(draw):
     elif special == 1:
         # a string that really matches the given format, at the ends of the datetime range, with timezone settings
         from checks import c14
-        fmt = draw(st.sampled_from(["%Y-%m-%d", "%d/%m/%Y %H:%M", "%Y%m%d", "%B %d, %Y", "%Y-%m-%d %H:%M:%S.%f", "%Y", "%m/%Y", "%d %b %Y %I:%M %p"]))
+        fmt = draw(st.sampled_from(["%Y-%m-%d", "%d/%m/%Y %H:%M", "%Y%m%d", "%B %d, %Y", "%Y-%m-%d %H:%M:%S.%f", "%Y", "%m/%Y", "%d %b %Y %I:%M %p",
+                                    # formats that leave the date (or part of it) to the reference time / the preferences
+                                    "%H:%M", "%I:%M %p", "%H:%M:%S", "%d %B", "%m/%d", "%B", "%d", "%j", "%b %d %H:%M", "%y"]))
         t = draw(st.sampled_from([[1, 1, 1, 0, 0, 0, 0], [1, 1, 2, 12, 30, 0, 0], [9999, 12, 31, 23, 59, 59, 999999], [9999, 12, 30, 0, 0, 0, 0],
                                   [100, 3, 1, 1, 1, 1, 0], [2020, 2, 29, 23, 59, 0, 0]]))
         c["s"], c["sclass"], c["formats"] = c14.render(fmt, t), "corpus", [fmt]
@@ -412,6 +416,16 @@ def cases(draw):
             st_["TO_TIMEZONE"] = draw(st.sampled_from([z for z in TZ_NAMES if z != "local"]))
         if draw(st.booleans()):
             st_["RETURN_AS_TIMEZONE_AWARE"] = draw(st.booleans())
+        open_date = not ("%Y" in fmt or "%y" in fmt)
+        if open_date or draw(st.booleans()):
+            # the reference time at the very ends of the range too (whatever completes or shifts the date does so there)
+            st_["RELATIVE_BASE"] = {"t": draw(st.sampled_from([[1, 1, 1, 0, 0, 0, 0], [1, 1, 1, 12, 0, 0, 0], [1, 1, 2, 0, 0, 0, 0],
+                                                               [9999, 12, 31, 23, 59, 59, 999999], [9999, 12, 31, 12, 0, 0, 0], [9999, 12, 30, 0, 0, 0, 0]])),
+                                    "tz": draw(st.sampled_from([None, None, "UTC", "+05:30", "-08:00"]))}
+        for k_, vals in (("PREFER_DATES_FROM", ["past", "future", "current_period"]), ("PREFER_DAY_OF_MONTH", ["first", "last", "current"]),
+                         ("PREFER_MONTH_OF_YEAR", ["first", "last", "current"])):
+            if draw(st.integers(0, 2)) == 0 or (open_date and k_ == "PREFER_DATES_FROM"):
+                st_[k_] = draw(st.sampled_from(vals))
         c["settings"] = st_ or None
     if draw(st.integers(0, 99)) < 15:
         inv = draw(st.sampled_from(INVALID))
